@@ -289,10 +289,11 @@ class AnnotGen:
     def _time_value(self, node):
         return self.value_for(node)
 
-    def annotation(self, depth=4, canonical=False, temporal=True, size=None):
+    def annotation(self, depth=4, canonical=False, temporal=True, size=None, reset=True):
         """A rule-conforming annotation: list of top-level items."""
         rng = self.rng
-        self.used = set()
+        if reset:
+            self.used = set()
         items = []
         n = size or rng.randrange(1, 6)
         for _ in range(n):
